@@ -118,7 +118,9 @@ pub fn pairs(kind: &str) -> Vec<Program> {
                 if kind == "C04" && i < 7 && j < 7 {
                     continue;
                 }
-                if kind == "C08" && i >= 4 && j >= 4 {
+                // (on a key whose item is dead but not collected yet - by its TTL here, by a delayed flush in general - also the
+                // lookups and stores against each other: what is dead stays unretrievable whoever collects it)
+                if kind == "C08" && i >= 4 && j >= 4 && !(init == "expired" && matches!(a[i].op.as_str(), "get" | "set" | "add") && matches!(b[j].op.as_str(), "get" | "set" | "add")) {
                     continue;
                 }
                 if kind == "C19" && !a[i].q && !b[j].q {
